@@ -1,0 +1,9 @@
+//go:build verif
+
+// Hand-written additions to the generated contract skeleton of this package.
+package zkprm
+
+// The challenge absorbs the Pedersen parameters and then each of the 80 commitments (C10).
+//@ func challenge
+//@   loop 1: invariant[C10] (err == nil ==> absorbed(hstate(hash), habs(iface(public.Aux)))) && callcount(WriteAny) == rangeindex + 2 && rangeindex < 80
+//@   ensures[C10] callcount(WriteAny) == 81
